@@ -41,7 +41,8 @@ LoadX(prog, dyn, q) ==
    db |-> l.db, nid |-> l.nid, dyn |-> l.dyn, static |-> l.static, st |-> l.st, gs |-> l.gs, cps |-> l.cps,
    k |-> l.k, ans |-> l.ans, ball |-> l.ball, lh |-> l.lh, out |-> l.out, gv |-> l.gv, ve |-> l.ve,
    cl |-> <<>>,          \* cl[u]: how often the cleanup of setup_call_cleanup instance u was started
-   unspec |-> FALSE]
+   unspec |-> FALSE,
+   nestcut |-> FALSE]    \* classification only: a cut removed a cleanup entry and uncovered another whose goal is still running
 
 (* ---- pseudo-variables of the store ---- *)
 OvVar(key)  == [t |-> "v", n |-> "$bb:" \o key, i |-> 0, a |-> <<>>]
@@ -72,8 +73,10 @@ RECURSIVE CutFrames(_, _)
 CutFrames(cps, idx) == IF idx = <<>> THEN <<>> ELSE CutFrames1(cps[idx[1]]) \o CutFrames(cps, Tail(idx))
 
 CutTo(m0, target, rest) ==
+  LET idx == SccIdx(m0.cps, Len(m0.cps), target) IN
   [m0 EXCEPT !.cps = SubSeq(m0.cps, 1, target),
-             !.gs = CutFrames(m0.cps, SccIdx(m0.cps, Len(m0.cps), target)) \o rest]
+             !.gs = CutFrames(m0.cps, idx) \o rest,
+             !.nestcut = @ \/ (idx # <<>> /\ target >= 1 /\ m0.cps[target].kind = "scc")]
 
 (* run the handlers of the entries idx (topmost first) of old.cps, each under its own store, then *)
 (* continue with goal stack gsF under store stF on top of base.cps                                *)
@@ -142,6 +145,20 @@ StepX(m) ==
   IN
   IF IsA(g, "!") THEN CutTo(m0, fr.cb, rest)
   ELSE IF IsF(g, "$cut", 1) THEN CutTo(m0, g.a[1].i, rest)
+  (* \+, forall/2, findall/3: as in Prolog.tla, but the continuation stays on the goal stack below the final  *)
+  (* 'fail' (it is never executed): Prolog!Unwind finds the active catch/3 frames through their '$popcatch'   *)
+  (* markers on the goal stack, and an exception raised inside these constructs must see the enclosing ones.  *)
+  ELSE IF IsF(g, "\\+", 1) THEN
+       [m0 EXCEPT !.cps = Append(m.cps, CP("alt", rest, m.st, None, None)),
+                  !.gs = <<F(Call1(g.a[1]), h0 + 1), F(C1("$cut", I(h0)), 0), F(Fail, 0)>> \o rest]
+  ELSE IF IsF(g, "forall", 2) THEN
+       [m0 EXCEPT !.cps = Append(m.cps, CP("alt", rest, m.st, None, None)),
+                  !.gs = <<F(Call1(g.a[1]), h0 + 1), F(Not(g.a[2]), h0 + 1), F(C1("$cut", I(h0)), 0), F(Fail, 0)>> \o rest]
+  ELSE IF IsF(g, "findall", 3) THEN
+       IF ~PartialList(m.st, g.a[3]) THEN Thr(TypeErr("list", g.a[3]))
+       ELSE [m0 EXCEPT !.cps = Append(m.cps, CP("alt", <<F(C1("$fa_done", g.a[3]), 0)>> \o rest, m.st, None, None)),
+                       !.lh = Append(m.lh, [h |-> h0 + 1, items |-> <<>>]),
+                       !.gs = <<F(Call1(g.a[2]), h0 + 1), F(C1("$fa_push", g.a[1]), 0), F(Fail, 0)>> \o rest]
   ELSE IF IsF(g, "setup_call_cleanup", 3) THEN
        [m0 EXCEPT !.gs = <<F(C1("once", g.a[1]), 0), F(C2("$scc_install", g.a[2], g.a[3]), 0)>> \o rest]
   ELSE IF IsF(g, "call_cleanup", 2) THEN
